@@ -168,6 +168,9 @@ func (a *App) cb(c context.Context, proto, name string) error {
 	if err != nil {
 		return err
 	}
+	if a.CBError != nil {
+		return a.CBError
+	}
 	if a.Callbacks == CBWrappedFail {
 		return fmt.Errorf("application callback %s failed", name)
 	}
